@@ -150,6 +150,8 @@ def apply(obj, h, tmpdir, counter):
             return obj[obj["v"] >= 1]
         labels = obj.index.to_series()
         return obj[labels == labels]                     # a genuine row selection (boolean Dask series) on a frame without the value column
+    if op == "dask_map_identity":
+        return obj.map_partitions(lambda d: d)
     if op == "dask_cx":
         return obj.cx[-100:100, -100:100]
     if op == "dask_persist":
@@ -182,7 +184,7 @@ def run(tier: str, seed: int) -> int:
     quick = tier == "quick"
     jobs = []
     for colsname, geoname, _ in LAYOUTS:
-        jobs.append(dict(module="MC_ActiveGeom", cfg=dict(constants=dict(AllCols="<- " + colsname, GeoCols="<- " + geoname, MaxOps=3 if quick else 4),
+        jobs.append(dict(module="MC_ActiveGeom", cfg=dict(constants=dict(AllCols="<- " + colsname, GeoCols="<- " + geoname, MaxOps=3 if quick else 4, FixMetaNonempty=True),
                                                          invariants=["Honoured", "PlainWhenNoGeometry"]), workers=4, dump=True, timeout=3000))
     results = run_jobs(jobs)
     chk.add_tlc(results)
